@@ -26,6 +26,9 @@ var fmtLines = []string{
 	"baz\r",
 }
 
+// fmtNesting: block structure only (C09 enumerates it to eight lines)
+var fmtNesting = []string{"##!> assemble", "##!<", "ab", "abcdefgh"}
+
 // fmtInteract: lines whose meaning depends on other lines of the file
 var fmtInteract = []string{"##!+ i", "##!> define n v", "{{n}}x", "##!> assemble", "##!<", "##!=>", "##!^ p", "##!$ s", "foo", "##!> include inc", "  ##!=< n", "##!=> n"}
 
